@@ -64,6 +64,8 @@ type Report struct {
 	notExh      []string
 	sums        map[string]int64
 	consist     map[string]string
+	states      map[uint64]struct{}
+	transitions map[uint64]struct{}
 	DropMeta    bool              // WritePartial leaves out Extra/Samples/Rule/Assumptions (non-lead shard of an isolated check)
 	knownKeys   map[string]string // key -> text for this property
 	harnessErr  []string
@@ -110,7 +112,27 @@ type Local struct {
 	evals    int64
 	distinct map[uint64]struct{}
 	outcomes map[uint64]struct{}
+	states   map[uint64]struct{}
+	trans    map[uint64]struct{}
+	traces   int64
 }
+
+// State / Transition / Trace: lock-free per-goroutine versions of the Report methods (merged by Merge).
+func (l *Local) State(h uint64) {
+	if l.states == nil {
+		l.states = map[uint64]struct{}{}
+	}
+	l.states[h] = struct{}{}
+}
+
+func (l *Local) Transition(h uint64) {
+	if l.trans == nil {
+		l.trans = map[uint64]struct{}{}
+	}
+	l.trans[h] = struct{}{}
+}
+
+func (l *Local) Trace() { l.traces++ }
 
 func (r *Report) Local() *Local {
 	return &Local{r: r, distinct: map[uint64]struct{}{}, outcomes: map[uint64]struct{}{}}
@@ -149,10 +171,32 @@ func (l *Local) Merge() {
 			r.outcomes[k] = struct{}{}
 		}
 	}
+	if len(l.states) > 0 || len(l.trans) > 0 {
+		if r.states == nil {
+			r.states, r.transitions = map[uint64]struct{}{}, map[uint64]struct{}{}
+		}
+		if r.transitions == nil {
+			r.transitions = map[uint64]struct{}{}
+		}
+		for k := range l.states {
+			r.states[k] = struct{}{}
+		}
+		for k := range l.trans {
+			r.transitions[k] = struct{}{}
+		}
+	}
+	if l.traces > 0 {
+		if r.sums == nil {
+			r.sums = map[string]int64{}
+		}
+		r.sums["traces_validated_against_impl"] += l.traces
+		l.traces = 0
+	}
 	r.mu.Unlock()
 	l.evals = 0
 	l.distinct = map[uint64]struct{}{}
 	l.outcomes = map[uint64]struct{}{}
+	l.states, l.trans = nil, nil
 }
 
 func (r *Report) Sample(s interface{}) {
@@ -197,6 +241,29 @@ func (r *Report) HarnessError(msg string) {
 }
 
 func (r *Report) Set(k string, v interface{}) { r.mu.Lock(); r.Extra[k] = v; r.mu.Unlock() }
+
+// State / Transition / Trace: explicit-state accounting for the checks that explore a state machine (distinct states
+// and transitions are counted by hash, merged across shard processes; a trace is one complete execution that was run
+// on the implementation).
+func (r *Report) State(h uint64) {
+	r.mu.Lock()
+	if r.states == nil {
+		r.states = map[uint64]struct{}{}
+	}
+	r.states[h] = struct{}{}
+	r.mu.Unlock()
+}
+
+func (r *Report) Transition(h uint64) {
+	r.mu.Lock()
+	if r.transitions == nil {
+		r.transitions = map[uint64]struct{}{}
+	}
+	r.transitions[h] = struct{}{}
+	r.mu.Unlock()
+}
+
+func (r *Report) Trace() { r.Add("traces_validated_against_impl", 1) }
 
 // Consistent records a value that every shard process of a check must compute identically (e.g. the hash of its
 // ordered case list: shards split the list by index, so differing lists would silently skip or repeat cases); a
@@ -292,6 +359,10 @@ func (r *Report) Finish() int {
 	for k, v := range r.sums {
 		cov[k] = v
 	}
+	if len(r.states) > 0 {
+		cov["states"] = len(r.states)
+		cov["transitions"] = len(r.transitions)
+	}
 	cov["evaluations"] = r.evals.Load()
 	cov["distinct_nontrivial"] = int64(len(r.distinct)) + r.distinctAdd
 	cov["outcomes_distinct"] = len(r.outcomes)
@@ -347,6 +418,8 @@ type Partial struct {
 	Assumptions []string
 	Sums        map[string]int64
 	Consist     map[string]string
+	States      []uint64
+	Transitions []uint64
 }
 
 func (r *Report) WritePartial(path string) error {
@@ -363,6 +436,12 @@ func (r *Report) WritePartial(path string) error {
 	}
 	for k := range r.outcomes {
 		p.Outcomes = append(p.Outcomes, k)
+	}
+	for k := range r.states {
+		p.States = append(p.States, k)
+	}
+	for k := range r.transitions {
+		p.Transitions = append(p.Transitions, k)
 	}
 	b, err := json.Marshal(p)
 	if err != nil {
@@ -425,6 +504,18 @@ func (r *Report) MergePartial(path string) error {
 		r.notExh = append(r.notExh, p.NotExh...)
 	}
 	r.harnessErr = append(r.harnessErr, p.HarnessErr...)
+	for _, k := range p.States {
+		if r.states == nil {
+			r.states = map[uint64]struct{}{}
+		}
+		r.states[k] = struct{}{}
+	}
+	for _, k := range p.Transitions {
+		if r.transitions == nil {
+			r.transitions = map[uint64]struct{}{}
+		}
+		r.transitions[k] = struct{}{}
+	}
 	for k, v := range p.Consist {
 		if r.consist == nil {
 			r.consist = map[string]string{}
